@@ -17,6 +17,9 @@ import ops
 import isa
 
 
+OVERRIDE = [None]
+
+
 def build_tus(cfgs, families, type_filter=None, header_extra=(), tier="quick"):
     ops.TIER = tier
     """returns list of job dicts ready for analysis"""
@@ -46,7 +49,7 @@ def build_tus(cfgs, families, type_filter=None, header_extra=(), tier="quick"):
         try:
             js, missing = tu.build()
             return {"cfg": cfg.name, "named": cfg.named, "type": vt.name, "fam": fam, "json": js,
-                    "missing": missing, "tier": tier, "prop": PROP[0]}
+                    "missing": missing, "tier": tier, "prop": PROP[0], "override": OVERRIDE[0]}
         except Broken as e:
             return {"cfg": cfg.name, "type": vt.name, "fam": fam, "broken": str(e)}
     return pmap(b, tus)
@@ -111,7 +114,11 @@ def make_ctx(vt, inst, f):
     if len(f["args"]) != len(inst.args):
         raise Broken("wrapper %s: IR has %d arguments, catalogue %d" % (inst.fname, len(f["args"]), len(inst.args)))
     if inst.ret == "M":
-        c.retrep = mask_rep(f["ret"], vt)
+        rvt = vt
+        tg = getattr(inst, "target", None)
+        if tg:
+            rvt = _vt_by_name(tg)
+        c.retrep = mask_rep(f["ret"], rvt)
     c.names = names
     c.argterms = argterms
     c.argspecs = argspecs
@@ -198,11 +205,16 @@ def analyse_job(job):
                     ctx.args[nm] = ctx.argterms[k]
             S = I.summarise(inst.fname, ctx.argterms, ctx.boolmem)
             ctx.summary = S
+            if getattr(inst, "optional", False) and any(
+                    nm.startswith("_ZN4avel") and m["functions"].get(nm, {}).get("decl") for nm, _a, _l in S.calls):
+                continue        # operation declared but not provided for this type pair
             for u in S.unknown:
                 unknown[u] = unknown.get(u, 0) + 1
             j = inst.judge or judge_default
             if prop and getattr(inst, "judges", None) and inst.judges.get(prop):
                 j = inst.judges[prop]
+            if job.get("override"):
+                j = getattr(ops, job["override"])
             v, detail, rule, wit = j(ctx, inst, S)
         except Broken:
             raise
@@ -214,9 +226,10 @@ def analyse_job(job):
     return {"res": out, "unknown": unknown}
 
 
-def run_families(res, cfgs, families, type_filter=None):
+def run_families(res, cfgs, families, type_filter=None, override=None, keytag=None):
     e3.ensure_tools()
     PROP[0] = res.prop
+    OVERRIDE[0] = override
     jobs = build_tus(cfgs, families, type_filter, tier=res.tier)
     # identical IR across configurations is analysed once
     results = procmap(analyse_job, jobs)
@@ -226,6 +239,8 @@ def run_families(res, cfgs, families, type_filter=None):
             res.brk(r["broken"])
             continue
         for key, v, detail, rule, wit in r["res"]:
+            if keytag:
+                key = dict(key, clause=keytag)
             res.add(key, v, detail, rule, wit)
         for u, n in r.get("unknown", {}).items():
             unknown[u] = unknown.get(u, 0) + n
